@@ -159,147 +159,6 @@ func (f *folder) foldCall(fn *ssa.Function, args []fval) (fval, error) {
 			switch x := in.(type) {
 			case *ssa.Phi:
 				continue
-			case *ssa.BinOp:
-				env[x] = foldBinOp(x.Op, f.val(env, x.X), f.val(env, x.Y), x.Type())
-			case *ssa.Alloc:
-				env[x] = fval{addr: &faddr{base: x}}
-			case *ssa.Store:
-				if a := f.val(env, x.Addr); a.addr != nil && len(a.addr.path) == 0 {
-					mem[a.addr.base] = f.val(env, x.Val)
-				} else if a.addr != nil {
-					// store into a field: forget what we knew about the local
-					delete(mem, a.addr.base)
-				}
-			case *ssa.FieldAddr:
-				if a := f.val(env, x.X); a.addr != nil {
-					name, _, _ := fieldName(x)
-					env[x] = fval{addr: &faddr{base: a.addr.base, path: append(append([]string{}, a.addr.path...), name)}}
-				} else {
-					env[x] = top
-				}
-			case *ssa.Field:
-				if sv := f.val(env, x.X); sv.fields != nil {
-					name, _, _ := fieldName(x)
-					if fv, ok := sv.fields[name]; ok {
-						env[x] = fv
-					} else {
-						env[x] = top
-					}
-				} else {
-					env[x] = top
-				}
-			case *ssa.UnOp:
-				if x.Op == token.MUL {
-					if g, ok := x.X.(*ssa.Global); ok {
-						env[x] = f.c.globalTable(g)
-						continue
-					}
-					if a := f.val(env, x.X); a.cvptr != nil {
-						env[x] = fromVal(a.cvptr)
-						continue
-					}
-					if a := f.val(env, x.X); a.addr != nil {
-						cur, ok := mem[a.addr.base]
-						for _, part := range a.addr.path {
-							if !ok || cur.fields == nil {
-								ok = false
-								break
-							}
-							cur, ok = cur.fields[part]
-						}
-						if ok {
-							env[x] = cur
-						} else {
-							env[x] = top
-						}
-						continue
-					}
-				}
-				env[x] = foldUnOp(x, f.val(env, x.X))
-			case *ssa.Convert:
-				env[x] = foldConvert(f.val(env, x.X), x.Type())
-			case *ssa.ChangeType:
-				v := f.val(env, x.X)
-				v.t = x.Type()
-				env[x] = v
-			case *ssa.MakeClosure:
-				if g, ok := x.Fn.(*ssa.Function); ok {
-					env[x] = fval{fn: g, t: x.Type()}
-				}
-			case *ssa.Call:
-				if bi, ok := x.Call.Value.(*ssa.Builtin); ok && bi.Name() == "len" && len(x.Call.Args) == 1 {
-					a := f.val(env, x.Call.Args[0])
-					switch cv := a.cv.(type) {
-					case *ListV:
-						env[x] = fval{k: constant.MakeInt64(int64(len(cv.Elems))), t: x.Type()}
-						continue
-					case *MapV:
-						env[x] = fval{k: constant.MakeInt64(int64(len(cv.Entries))), t: x.Type()}
-						continue
-					}
-					if a.k != nil && a.k.Kind() == constant.String {
-						env[x] = fval{k: constant.MakeInt64(int64(len(constant.StringVal(a.k)))), t: x.Type()}
-						continue
-					}
-					env[x] = top
-					continue
-				}
-				callee := staticCallee(&x.Call)
-				if callee == nil {
-					// call through a known function value?
-					if fv := f.val(env, x.Call.Value); fv.fn != nil && !x.Call.IsInvoke() {
-						callee = fv.fn
-					}
-				}
-				if callee == nil {
-					env[x] = top
-					continue
-				}
-				var as []fval
-				for _, a := range x.Call.Args {
-					as = append(as, f.val(env, a))
-				}
-				// bound-method thunk: free var is the receiver (unknown) — methods here never depend on receiver state we track
-				target := callee
-				if strings.HasSuffix(callee.Name(), "$bound") {
-					target = unbound(callee)
-					as = append([]fval{top}, as...)
-				}
-				r, err := f.foldCall(target, as)
-				if err != nil {
-					env[x] = top
-				} else {
-					env[x] = r
-				}
-			case *ssa.Lookup:
-				env[x] = foldLookup(x, f.val(env, x.X), f.val(env, x.Index))
-			case *ssa.IndexAddr:
-				if l, ok := f.val(env, x.X).cv.(*ListV); ok {
-					if iv := f.val(env, x.Index); iv.k != nil && iv.k.Kind() == constant.Int {
-						if i, ok := constant.Int64Val(iv.k); ok && i >= 0 && int(i) < len(l.Elems) {
-							env[x] = fval{cvptr: l.Elems[i]}
-							continue
-						}
-					}
-				}
-				env[x] = top
-			case *ssa.Index:
-				if l, ok := f.val(env, x.X).cv.(*ListV); ok {
-					if iv := f.val(env, x.Index); iv.k != nil && iv.k.Kind() == constant.Int {
-						if i, ok := constant.Int64Val(iv.k); ok && i >= 0 && int(i) < len(l.Elems) {
-							env[x] = fromVal(l.Elems[i])
-							continue
-						}
-					}
-				}
-				env[x] = top
-			case *ssa.Extract:
-				t := f.val(env, x.Tuple)
-				if t.tuple != nil && x.Index < len(t.tuple) {
-					env[x] = t.tuple[x.Index]
-				} else {
-					env[x] = top
-				}
 			case *ssa.If:
 				cv := f.val(env, x.Cond)
 				if cv.k == nil || cv.k.Kind() != constant.Bool {
@@ -332,13 +191,221 @@ func (f *folder) foldCall(fn *ssa.Function, args []fval) (fval, error) {
 			case *ssa.Panic:
 				return top, fmt.Errorf("panics")
 			default:
-				if v, ok := in.(ssa.Value); ok {
-					env[v] = top
-				}
+				f.evalInstr(env, mem, in)
 			}
 		}
 		return top, fmt.Errorf("fell off block %d of %s", b.Index, fname(fn))
 	next:
+	}
+}
+
+// evalInstr evaluates one non-terminator, non-phi instruction into env / mem.
+func (f *folder) evalInstr(env map[ssa.Value]fval, mem map[*ssa.Alloc]fval, in ssa.Instruction) {
+	switch x := in.(type) {
+	case *ssa.BinOp:
+		env[x] = foldBinOp(x.Op, f.val(env, x.X), f.val(env, x.Y), x.Type())
+	case *ssa.Alloc:
+		env[x] = fval{addr: &faddr{base: x}}
+	case *ssa.Store:
+		if a := f.val(env, x.Addr); a.addr != nil && len(a.addr.path) == 0 {
+			mem[a.addr.base] = f.val(env, x.Val)
+		} else if a.addr != nil {
+			// store into a field / array element of the local
+			mem[a.addr.base] = setFvalPath(mem[a.addr.base], a.addr.path, f.val(env, x.Val))
+		}
+	case *ssa.FieldAddr:
+		if a := f.val(env, x.X); a.addr != nil {
+			name, _, _ := fieldName(x)
+			env[x] = fval{addr: &faddr{base: a.addr.base, path: append(append([]string{}, a.addr.path...), name)}}
+		} else {
+			env[x] = top
+		}
+	case *ssa.Field:
+		if sv := f.val(env, x.X); sv.fields != nil {
+			name, _, _ := fieldName(x)
+			if fv, ok := sv.fields[name]; ok {
+				env[x] = fv
+			} else {
+				env[x] = top
+			}
+		} else {
+			env[x] = top
+		}
+	case *ssa.UnOp:
+		if x.Op == token.MUL {
+			if g, ok := x.X.(*ssa.Global); ok {
+				env[x] = f.c.globalTable(g)
+				return
+			}
+			if a := f.val(env, x.X); a.cvptr != nil {
+				env[x] = fromVal(a.cvptr)
+				return
+			}
+			if a := f.val(env, x.X); a.addr != nil {
+				cur, ok := mem[a.addr.base]
+				for _, part := range a.addr.path {
+					if !ok || cur.fields == nil {
+						ok = false
+						break
+					}
+					cur, ok = cur.fields[part]
+				}
+				if ok {
+					env[x] = cur
+				} else {
+					env[x] = top
+				}
+				return
+			}
+		}
+		env[x] = foldUnOp(x, f.val(env, x.X))
+	case *ssa.Convert:
+		env[x] = foldConvert(f.val(env, x.X), x.Type())
+	case *ssa.ChangeType:
+		v := f.val(env, x.X)
+		v.t = x.Type()
+		env[x] = v
+	case *ssa.MakeClosure:
+		if g, ok := x.Fn.(*ssa.Function); ok {
+			env[x] = fval{fn: g, t: x.Type()}
+		}
+	case *ssa.Call:
+		if bi, ok := x.Call.Value.(*ssa.Builtin); ok && (bi.Name() == "max" || bi.Name() == "min") && len(x.Call.Args) >= 1 {
+			best := f.val(env, x.Call.Args[0])
+			for _, a := range x.Call.Args[1:] {
+				v := f.val(env, a)
+				if best.k == nil || v.k == nil || best.k.Kind() != constant.Int || v.k.Kind() != constant.Int {
+					best = top
+					break
+				}
+				if (bi.Name() == "max" && constant.Compare(v.k, token.GTR, best.k)) || (bi.Name() == "min" && constant.Compare(v.k, token.LSS, best.k)) {
+					best = v
+				}
+			}
+			if best.k != nil && best.k.Kind() == constant.Int {
+				best.t = x.Type()
+				env[x] = best
+			} else {
+				env[x] = top
+			}
+			return
+		}
+		if bi, ok := x.Call.Value.(*ssa.Builtin); ok && bi.Name() == "len" && len(x.Call.Args) == 1 {
+			a := f.val(env, x.Call.Args[0])
+			switch cv := a.cv.(type) {
+			case *ListV:
+				env[x] = fval{k: constant.MakeInt64(int64(len(cv.Elems))), t: x.Type()}
+				return
+			case *MapV:
+				env[x] = fval{k: constant.MakeInt64(int64(len(cv.Entries))), t: x.Type()}
+				return
+			}
+			if a.k != nil && a.k.Kind() == constant.String {
+				env[x] = fval{k: constant.MakeInt64(int64(len(constant.StringVal(a.k)))), t: x.Type()}
+				return
+			}
+			env[x] = top
+			return
+		}
+		callee := staticCallee(&x.Call)
+		if callee == nil {
+			// call through a known function value?
+			if fv := f.val(env, x.Call.Value); fv.fn != nil && !x.Call.IsInvoke() {
+				callee = fv.fn
+			}
+		}
+		if callee == nil {
+			env[x] = top
+			return
+		}
+		var as []fval
+		for _, a := range x.Call.Args {
+			av := f.val(env, a)
+			as = append(as, av)
+			if av.addr != nil {
+				// the callee may write through the pointer
+				defer delete(mem, av.addr.base)
+			}
+		}
+		// bound-method thunk: free var is the receiver (unknown) — methods here never depend on receiver state we track
+		target := callee
+		if strings.HasSuffix(callee.Name(), "$bound") {
+			target = unbound(callee)
+			as = append([]fval{top}, as...)
+		}
+		r, err := f.foldCall(target, as)
+		if err != nil {
+			env[x] = top
+		} else {
+			env[x] = r
+		}
+	case *ssa.Lookup:
+		env[x] = foldLookup(x, f.val(env, x.X), f.val(env, x.Index))
+	case *ssa.Slice:
+		// the whole of a local array whose elements are all known constants (a variadic argument list): an immutable list
+		if a := f.val(env, x.X); a.addr != nil && len(a.addr.path) == 0 && x.Low == nil && x.High == nil && x.Max == nil {
+			if pt, ok := a.addr.base.Type().Underlying().(*types.Pointer); ok {
+				if at, ok := pt.Elem().Underlying().(*types.Array); ok {
+					cur := mem[a.addr.base]
+					lv := &ListV{T: x.Type()}
+					okAll := cur.fields != nil
+					for i := int64(0); okAll && i < at.Len(); i++ {
+						e, has := cur.fields[fmt.Sprintf("#%d", i)]
+						if !has || e.k == nil {
+							okAll = false
+							break
+						}
+						lv.Elems = append(lv.Elems, &CVal{V: e.k, T: at.Elem(), c: f.c})
+					}
+					if okAll {
+						env[x] = fval{cv: lv, t: x.Type()}
+						return
+					}
+				}
+			}
+		}
+		env[x] = top
+	case *ssa.IndexAddr:
+		if a := f.val(env, x.X); a.addr != nil {
+			if iv := f.val(env, x.Index); iv.k != nil && iv.k.Kind() == constant.Int {
+				env[x] = fval{addr: &faddr{base: a.addr.base, path: append(append([]string{}, a.addr.path...), "#"+iv.k.ExactString())}}
+				return
+			}
+			// unknown element written or read: forget the array
+			delete(mem, a.addr.base)
+			env[x] = top
+			return
+		}
+		if l, ok := f.val(env, x.X).cv.(*ListV); ok {
+			if iv := f.val(env, x.Index); iv.k != nil && iv.k.Kind() == constant.Int {
+				if i, ok := constant.Int64Val(iv.k); ok && i >= 0 && int(i) < len(l.Elems) {
+					env[x] = fval{cvptr: l.Elems[i]}
+					return
+				}
+			}
+		}
+		env[x] = top
+	case *ssa.Index:
+		if l, ok := f.val(env, x.X).cv.(*ListV); ok {
+			if iv := f.val(env, x.Index); iv.k != nil && iv.k.Kind() == constant.Int {
+				if i, ok := constant.Int64Val(iv.k); ok && i >= 0 && int(i) < len(l.Elems) {
+					env[x] = fromVal(l.Elems[i])
+					return
+				}
+			}
+		}
+		env[x] = top
+	case *ssa.Extract:
+		t := f.val(env, x.Tuple)
+		if t.tuple != nil && x.Index < len(t.tuple) {
+			env[x] = t.tuple[x.Index]
+		} else {
+			env[x] = top
+		}
+	default:
+		if v, ok := in.(ssa.Value); ok {
+			env[v] = top
+		}
 	}
 }
 
@@ -450,11 +517,29 @@ func libTransfer(fn *ssa.Function, args []fval) (fval, error) {
 		if r, ok := argInt(1); ok && r < 0 {
 			return fval{k: constant.MakeInt64(-1), t: types.Typ[types.Int]}, nil
 		}
-	case "slices.Contains":
+	case "slices.Index", "slices.Contains":
+		// doc: Index returns the index of the first occurrence of v in s, or -1 if not present; Contains reports whether v is present.
+		if len(args) == 2 && args[1].k != nil {
+			if l, ok := args[0].cv.(*ListV); ok {
+				idx := int64(-1)
+				for i, e := range l.Elems {
+					ce, ok := e.(*CVal)
+					if !ok || ce.V.Kind() != args[1].k.Kind() {
+						return top, fmt.Errorf("%s over non-constant elements", name)
+					}
+					if idx < 0 && constant.Compare(ce.V, token.EQL, args[1].k) {
+						idx = int64(i)
+					}
+				}
+				if name == "slices.Contains" {
+					return fval{k: constant.MakeBool(idx >= 0), t: boolT}, nil
+				}
+				return fval{k: constant.MakeInt64(idx), t: types.Typ[types.Int]}, nil
+			}
+		}
 	}
 	return top, fmt.Errorf("no transfer function for %s with these arguments", name)
 }
-
 
 // fromVal converts a table value (consteval) into a folder value.
 func fromVal(v Val) fval {
@@ -590,4 +675,17 @@ func (c *Ctx) globalTable(g *ssa.Global) fval {
 	r := fromVal(val)
 	c.globalTabs[g] = r
 	return r
+}
+
+// setFvalPath returns cur with the field / element path replaced by v (copy on write; absent fields stay unknown).
+func setFvalPath(cur fval, path []string, v fval) fval {
+	if len(path) == 0 {
+		return v
+	}
+	nf := map[string]fval{}
+	for k, x := range cur.fields {
+		nf[k] = x
+	}
+	nf[path[0]] = setFvalPath(cur.fields[path[0]], path[1:], v)
+	return fval{fields: nf, t: cur.t}
 }
